@@ -64,7 +64,30 @@ func (p *Prog) sortedLater(fn *ssa.Function, built ssa.Value, loop map[*ssa.Basi
 		if !ok || !isSortCall(site.Common()) || loop[in.Block()] {
 			return
 		}
-		for _, o := range p.origins(site.Common().Args[0], OriginOpts{}) {
+		var cands []ssa.Value
+		cands = append(cands, p.origins(site.Common().Args[0], OriginOpts{})...)
+		// sort.Sort(byName{entries: built}): the slice travels inside a local sort.Interface value
+		for _, o := range cands {
+			var holder *ssa.Alloc
+			if ld, ok := o.(*ssa.UnOp); ok && ld.Op == token.MUL {
+				holder, _ = ld.X.(*ssa.Alloc)
+			} else if al, ok := o.(*ssa.Alloc); ok {
+				holder = al
+			}
+			if holder == nil || holder.Referrers() == nil {
+				continue
+			}
+			for _, u := range *holder.Referrers() {
+				if fa, ok := u.(*ssa.FieldAddr); ok {
+					for _, uu := range *fa.Referrers() {
+						if st, ok := uu.(*ssa.Store); ok && st.Addr == ssa.Value(fa) {
+							cands = append(cands, p.origins(st.Val, OriginOpts{})...)
+						}
+					}
+				}
+			}
+		}
+		for _, o := range cands {
 			if o == built {
 				found = true
 			}
@@ -422,6 +445,11 @@ func init() {
 									if cellOf(st.Addr) != nil {
 										continue // captured by the less-func closure
 									}
+									if fa, ok := st.Addr.(*ssa.FieldAddr); ok {
+										if al, ok := fa.X.(*ssa.Alloc); ok && localStructOnly(al) {
+											continue // kept in a field of a local walker struct; the sort call receives that field
+										}
+									}
 								}
 								if !dominates(sortCall, r) {
 									bad = p.instrPos(r)
@@ -534,6 +562,16 @@ func init() {
 											cleared[fa.Field] = true
 										}
 									}
+								}
+							}
+						}
+					}
+					// `*n = html.Node{}`: the whole value is overwritten at once
+					if refs := ta.Referrers(); refs != nil {
+						for _, r := range *refs {
+							if s, ok := r.(*ssa.Store); ok && s.Addr == ssa.Value(ta) {
+								for i := 0; i < st.NumFields(); i++ {
+									cleared[i] = true
 								}
 							}
 						}
@@ -843,6 +881,21 @@ func constsComparedWithParam(fn *ssa.Function, idx int) []string {
 							out = append(out, s)
 						}
 					}
+				}
+			}
+		}
+	})
+	// membership tests against a constant table: slices.Contains(table, x), table[x]
+	eachInstr(fn, func(in ssa.Instruction) {
+		v, ok := in.(ssa.Value)
+		if !ok {
+			return
+		}
+		if subj, set, _, isM := memberOf(v); isM && subj == ssa.Value(prm) {
+			for _, s := range set {
+				if !seen[s] {
+					seen[s] = true
+					out = append(out, s)
 				}
 			}
 		}
